@@ -116,6 +116,10 @@ def gen_pair(rng, max_n):
 
 def gen_repr(rng):
     fmt = rng.choice(FORMATS)
+    if fmt in ("csr", "csc", "coo") and rng.random() < 0.3:
+        # the same adjacency matrix with a few zeros stored explicitly (as left behind by A[i, j] = 0 or A - B)
+        return {"fmt": fmt, "fill": rng.choice(FILLS), "dtype": "int", "explicit_zeros": rng.randint(1, 3),
+                "zseed": rng.randrange(10 ** 6)}
     # bool adjacency only for nested lists / dense arrays: SciPy itself rejects some bool sparse
     # formats, and the property does not speak about dtypes
     return {"fmt": fmt, "fill": rng.choice(FILLS),
@@ -149,12 +153,25 @@ def materialize(g, rep):
         return [[(bool(x) if rep["dtype"] == "bool" else int(x)) for x in row] for row in A]
     if f == "dense":
         return A
-    if f == "csr":
-        return sps.csr_matrix(A)
-    if f == "csc":
-        return sps.csc_matrix(A)
-    if f == "coo":
-        return sps.coo_matrix(A)
+    if f in ("csr", "csc", "coo"):
+        k = int(rep.get("explicit_zeros", 0) or 0)
+        if not k:
+            return {"csr": sps.csr_matrix, "csc": sps.csc_matrix, "coo": sps.coo_matrix}[f](A)
+        import random as _random
+        r_ = _random.Random(rep.get("zseed", 0))
+        rows, cols = np.nonzero(A)
+        rows, cols = list(rows), list(cols)
+        vals = [1] * len(rows)
+        free = [(i, j) for i in range(n) for j in range(n) if i != j and not A[i, j] and not A[j, i]]
+        r_.shuffle(free)
+        for i, j in free[:k]:
+            rows.append(i), cols.append(j), vals.append(0)      # stored, but zero: not an edge of the graph
+        M_ = sps.coo_matrix((np.array(vals, dtype=np.int64), (np.array(rows, dtype=np.int64), np.array(cols, dtype=np.int64))),
+                            shape=(n, n))
+        if f == "coo":
+            return M_
+        M2 = M_.tocsr() if f == "csr" else M_.tocsc()       # conversion keeps explicitly stored zeros
+        return M2
     raise InvalidCase("format")
 
 
